@@ -43,6 +43,21 @@ func checkC06(c *core.Ctx) {
 			c.Inconclusive("cannot read witness: " + err.Error())
 			return
 		}
+		var m struct {
+			Witness struct {
+				Scenario struct {
+					Mode string `json:"mode"`
+					Hist int    `json:"hist"`
+					K    int    `json:"k"`
+				} `json:"scenario"`
+			} `json:"witness"`
+		}
+		_ = readWitness(c.Replay, &m)
+		if m.Witness.Scenario.Mode == "deadline-after-the-end" {
+			h, tables := stopHistory(c, m.Witness.Scenario.Hist)
+			c06Deadline(c, m.Witness.Scenario.Hist, m.Witness.Scenario.K, h, h.Build(), tables)
+			return
+		}
 		scn := w.Witness.Scenario
 		h, tables := stopHistory(c, scn.Hist)
 		c06Run(c, scn, h, h.Build(), tables)
